@@ -198,6 +198,12 @@ class Engine(CoreMixin, ExprMixin, CallMixin, StmtMixin, BuiltinMixin):
         rep = FunctionReport(contract, fi)
         self.reset(contract, fi, contract.name)
         try:
+            for dn in fi.node.decorator_list:
+                dsrc = ast.unparse(dn)
+                ok = dsrc in ("property", "staticmethod", "classmethod") or dsrc.endswith(".setter") or dsrc.startswith("reraise(") \
+                    or dsrc.startswith("wraps(") or dsrc.startswith("format_checker.register(")
+                if not ok:
+                    raise OutOfSubset(f"decorator @{dsrc} is not modelled (it may change what the function means)", fi.node)
             st = self.entry_state(contract, fi)
             entry_env = dict(st.env)
             self.spec_state = st
@@ -315,9 +321,14 @@ class Engine(CoreMixin, ExprMixin, CallMixin, StmtMixin, BuiltinMixin):
         """Relevance slicing (dropping assumptions is sound): keep the facts connected to the goal through
         shared run-specific symbols (inputs, fresh constants, attribute functions)."""
         import re as _r
-        pat = _r.compile(r"(?<![\w.])(?:pv_[A-Za-z0-9_]+|in_[A-Za-z0-9_]+|attr_[A-Za-z0-9_]+|H_[A-Za-z0-9_]+)")
-        syms = [set(pat.findall(f)) for f in facts]
-        live = set(pat.findall(goal))
+        pat = _r.compile(r"(?<![\w.])(?:pv_[A-Za-z0-9_]+|in_[A-Za-z0-9_]+|attr_[A-Za-z0-9_]+|H_[A-Za-z0-9_]+|AT_[A-Za-z0-9_@]+)")
+        app = _r.compile(r"\((attr_[A-Za-z0-9_]+|H_[A-Za-z0-9_]+) (in_[A-Za-z0-9_]+)\)")
+
+        def symbols(t):
+            # an attribute of an input is its own symbol: facts about self.minimum say nothing about self.items
+            return set(pat.findall(app.sub(lambda m: f"AT_{m.group(1)}@{m.group(2)}", t)))
+        syms = [symbols(f) for f in facts]
+        live = symbols(goal)
         if not live:
             return facts
         keep = [False] * len(facts)
